@@ -2515,6 +2515,90 @@ def stage_corr_poly(ctx, env):
                 ctx.coverage["disagreements_checked"] += 1
 
 
+# ====================================================================== integer Conv normaliser (simp_full, int_norm_conv, int_norm_eq)
+def iexp_atoms(t, acc):
+    if t.is_number():
+        return acc
+    if t.is_plus() or t.is_minus() or t.is_times():
+        iexp_atoms(t.arg1, acc)
+        iexp_atoms(t.arg, acc)
+    elif t.is_uminus():
+        iexp_atoms(t.arg, acc)
+    elif t.is_nat_power() and t.arg.is_number():
+        iexp_atoms(t.arg1, acc)
+    else:
+        acc.add(t)
+    return acc
+
+
+def iexp_of(t, ranks):
+    """Integer term as the model reads it (the case list of simp_full, in its order)."""
+    if t.is_number():
+        return ["num", int(t.dest_number())]
+    if t.is_plus():
+        return ["add", iexp_of(t.arg1, ranks), iexp_of(t.arg, ranks)]
+    if t.is_minus():
+        return ["sub", iexp_of(t.arg1, ranks), iexp_of(t.arg, ranks)]
+    if t.is_times():
+        return ["mul", iexp_of(t.arg1, ranks), iexp_of(t.arg, ranks)]
+    if t.is_nat_power() and t.arg.is_number():
+        return ["pow", iexp_of(t.arg1, ranks), int(t.arg.dest_number())]
+    if t.is_uminus():
+        return ["neg", iexp_of(t.arg, ranks)]
+    return ["at", ranks[t], t.size()]
+
+
+def stage_corr_int(ctx, env):
+    """simp_full, int_norm_conv and int_norm_eq against the Lean model IntModel.lean: right-hand sides
+    compared as trees.  Atoms are integer variables (powers only of variables)."""
+    n = ctx.scale(150, 3000)
+    rng = ctx.rng("corr/int")
+    I = env.integer
+    cases, lines = [], []
+    for it in range(n):
+        r = it % 3
+        if r == 0:
+            a = gen_cancel(rng, "int", rng.randint(1, 3))
+        else:
+            a = gen_arith(rng, "int", rng.randint(1, 4), ops="+++***-n^", atoms=False)
+        t = to_term(env, a, "int")
+        b = gen_arith(rng, "int", rng.randint(0, 2), ops="++*-n", atoms=False)
+        t2 = to_term(env, b, "int")
+        atoms = iexp_atoms(t, set()) | iexp_atoms(t2, set())
+        ranks = {x: i for i, x in enumerate(env.term_ord.sorted_terms(list(atoms)))}
+        jobs = [("intsimp", lambda: I.simp_full().get_proof_term(t).prop.rhs, [iexp_of(t, ranks)]),
+                ("intnorm", lambda: I.int_norm_conv().get_proof_term(t).prop.rhs, [iexp_of(t, ranks)])]
+        if it % 2 == 0:
+            eq = env.term.Eq(t, t2)
+            jobs.append(("intnormeq", lambda: I.int_norm_eq().get_proof_term(eq).prop.rhs.arg1, [iexp_of(t, ranks), iexp_of(t2, ranks)]))
+        for op, f, args in jobs:
+            try:
+                with time_limit(30):
+                    rhs = f()
+                extra = iexp_atoms(rhs, set()) - atoms
+                impl = "new-atoms" if extra else sexp.dumps(iexp_of(rhs, ranks))
+            except Timeout:
+                continue
+            except Exception as e:  # noqa
+                impl = "raise:" + type(e).__name__
+            cases.append((op, t, t2, impl))
+            lines.append(sexp.dumps([op] + args))
+    out = ctx.lean_driver(EXE, lines, timeout=1200) if lines else []
+    if out is None:
+        ctx.broken("correspondence:c10:driver", "model driver unavailable")
+        return
+    nd = 0
+    for (op, t, t2, impl), m in zip(cases, out):
+        ctx.case(("int", op, str(tj(t)), str(tj(t2)) if op == "intnormeq" else ""), nontrivial=not t.is_var())
+        agree = impl.replace(" ", "") == m.replace(" ", "")
+        ctx.count("corr:%s:%s" % (op, "agree" if agree else "DISAGREE"))
+        if not agree:
+            nd += 1
+            if nd <= 3:
+                ctx.broken("correspondence:c10:%s" % op, "%s of %s%s: impl=%s model=%s" % (op, t, (" = %s" % t2) if op == "intnormeq" else "", impl[:300], m[:300]))
+                ctx.coverage["disagreements_checked"] += 1
+
+
 # ====================================================================== entry points
 def run(ctx):
     ctx.coverage["rule"] = (
@@ -2529,9 +2613,9 @@ def run(ctx):
         "schematic), nested binders with equal names, a rule's left side under the binder; for abs/top/bottom/top_sweep/sub/"
         "beta_norm conversions, sort_conj/sort_disj and int_norm_conv; judged by the oracle and (combinators) by the Lean model, whose "
         "codec opens binders with names of its own.")
-    ok = ctx.lean_props(["Holpy.C10.Props", "Holpy.C10.PropsPoly"], exes=[EXE])
+    ok = ctx.lean_props(["Holpy.C10.Props", "Holpy.C10.PropsPoly", "Holpy.C10.PropsPolySem", "Holpy.C10.PropsNatPoly", "Holpy.C10.PropsInt"], exes=[EXE])
     if ctx.tier == "thorough" and ok:
-        ctx.lean_check_modules(["Holpy.C10.Props", "Holpy.C10.PropsPoly"])
+        ctx.lean_check_modules(["Holpy.C10.Props", "Holpy.C10.PropsPoly", "Holpy.C10.PropsPolySem", "Holpy.C10.PropsNatPoly", "Holpy.C10.PropsInt"])
     ctx.coverage["trusted_base"] += [
         "harness/props/c10.py: generators, term codec, ranking of members/atoms by the implementation's own term_ord.fast_compare",
         "kernel.theory.check_proof is the judge of 'checker-accepted' (check_level=0: every macro with an expansion is expanded)",
@@ -2554,6 +2638,7 @@ def run(ctx):
     stage_corr_acnorm(ctx, env)
     stage_corr_conv(ctx, env)
     stage_corr_poly(ctx, env)
+    stage_corr_int(ctx, env)
     for s in (stage_corr_natnorm,):
         s(ctx, env)
     ctx.log("correspondence done")
@@ -2701,16 +2786,24 @@ MANIFEST = {
             "forms, normalising a normal form changes nothing' is a theorem about the model, and the model is compared with the "
             "real convert_to_poly / from_poly / real_norm_conv on every expression of the cancellation generator (monomial LIST: "
             "order, factors, powers, exact coefficients). "
-            "(5) The nat Conv normaliser data.nat.norm_full (the one nat_norm uses): norm_sound, norm_idem_partial, "
-            "norm_canonical_partial only -- its canonicity under assoc/comm/distrib and isNF(norm t) are NOT proved (it does not go "
-            "through util/poly.py); the integer Conv normaliser (simp_full / int_norm_conv) is NOT modelled. Both are compared "
-            "against the independent exact-rational evaluator on cancellation-rich pairs every run, as are the decisions of "
-            "nat_norm, real_norm, int_eq_macro and int_norm_eq; proplogic.norm_full / sort_conj / sort_disj on member sets (oracle "
-            "only). Fast evaluation against checked proof term for every Conv class overriding eval and for nat_norm ('eval "
-            "succeeds, proof term raises' is a violation). Every Conv subclass of the six modules is run on generated terms of "
-            "its domain and judged by the real proof checker; binder-traversing conversions on de Bruijn inputs with clashing names.",
-    "note": "poly_canonical is for the inductively defined congruence; the semantic form (equal value under every valuation over an "
-            "infinite integral domain => identical lists) is NOT proved. Outside the modelled fragment: of_nat, division by "
+            "(5) Semantic canonicity: poly_canonical_semantic -- over an infinite integral domain (Z, Q) two expressions have the "
+            "IDENTICAL convert_to_poly list iff they have the same value under every valuation (via MvPolynomial.funext); "
+            "poly_zero_of_eval_zero. "
+            "(6) The nat Conv normaliser data.nat.norm_full (the one nat_norm uses; not built on util/poly.py): norm_sound, "
+            "norm_sound_int, norm_full_poly_invariant (the normal form has the identical polynomial as the term), "
+            "norm_full_eq_poly_partial (same normal form => same polynomial), norm_idem_partial, norm_canonical_partial. NOT "
+            "proved: same polynomial => same normal form (canonicity) and isNF(norm t). Truncated subtraction, powers and "
+            "applications are atoms of this normaliser. "
+            "(7) The integer Conv normaliser (simp_full, int_norm_conv, int_norm_eq) is modelled (IntModel.lean) and compared tree "
+            "for tree with the real conversions' right-hand sides: int_norm_sound (value preserved in Z), int_norm_eq_sound (the "
+            "returned lhs = 0 is equivalent to a = b), int_norm_canonical_partial (normal form has the polynomial of the term; same "
+            "normal form => same polynomial). NOT proved: same polynomial => same normal form. "
+            "For (6) and (7) canonicity is compared against the independent exact-rational evaluator on cancellation-rich pairs "
+            "every run, as are the decisions of nat_norm, real_norm, int_eq_macro and int_norm_eq; proplogic.norm_full / sort_conj / "
+            "sort_disj on member sets (oracle only). Fast evaluation against checked proof term for every Conv class overriding "
+            "eval and for nat_norm. Every Conv subclass of the six modules is run on generated terms of its domain and judged by "
+            "the real proof checker; binder-traversing conversions on de Bruijn inputs with clashing names.",
+    "note": "Outside the modelled fragment: of_nat, division by "
             "non-constants, real powers, nat truncated subtraction (atoms). int: from_poly writes powers that int's convert_to_poly "
             "reads as atoms, so from_poly o convert_to_poly is only claimed stable for reals (and ints without power atoms). "
             "Atoms are ranks under term_ord.fast_compare (C03) -- the model's order on atoms is the order on ranks. "
